@@ -241,3 +241,34 @@ Theorem c18_translated_stream_is_model :
   match g_wcs_run x ops with Some (x1, rs) => Some (wcs_state x1, wcs_raw x1, rs) | None => None end
   = wc_run_ops (wcs_state x) (wcs_raw x) ops.
 Proof. exact translated_wincon_stream_is_model. Qed.
+
+(* the constructors / accessors of WinconStream are translated too (Generated/WinconStreamFn.v): `new` starts from the
+   initial state, which is the TRANSLATED `WinconBytes::new` (c18_translated_wincon_bytes_new); a stream made by `new`,
+   driven by any operations and taken apart with `into_inner` is the hand model run from its initial state ... *)
+Theorem c18_translated_new_run_into_inner : forall cf raw ops,
+  match g_wcs_run (g_wcs_new cf raw) ops with
+  | Some (x1, rs) => Some (wcs_state x1, g_wcs_into_inner cf x1, rs)
+  | None => None
+  end = wc_run_ops ws_new raw ops.
+Proof. exact translated_wincon_new_run_into_inner. Qed.
+
+Theorem c18_translated_initial_state_is_new : ws_new = mkWS (wb_parser g_wb_new) (wb_capture g_wb_new).
+Proof. exact ws_new_is_translated_new. Qed.
+
+(* ... and `lock` (Stdout and Stderr) hands the state at the time of the call to the locked stream: operations, lock, more
+   operations = the same operations without the lock *)
+Theorem c18_translated_lock_preserves_state : forall cf x ops1 ops2,
+  match g_wcs_run x ops1 with
+  | Some (x1, rs1) =>
+      match g_wcs_run (g_wcs_lock_stdout cf x1) ops2 with Some (x2, rs2) => Some (x2, rs1 ++ rs2) | None => None end
+  | None => None
+  end = g_wcs_run x (ops1 ++ ops2) /\
+  match g_wcs_run x ops1 with
+  | Some (x1, rs1) =>
+      match g_wcs_run (g_wcs_lock_stderr cf x1) ops2 with Some (x2, rs2) => Some (x2, rs1 ++ rs2) | None => None end
+  | None => None
+  end = g_wcs_run x (ops1 ++ ops2).
+Proof. exact translated_wincon_lock_preserves_state. Qed.
+
+Theorem c18_translated_is_terminal : forall cf x, g_wcs_is_terminal cf x = ac_tty cf.
+Proof. exact g_wcs_is_terminal_eq. Qed.
